@@ -127,7 +127,7 @@ def correspond(ctx):
     ngr = ctx.scale(70, 700) * (2 if ctx.widen else 1)
     sampled = 0
     for gi in range(ngr):
-        rules, ts = C.gen_cfg(rng)
+        rules, ts = C.gen_context_cfg(rng) if gi % 3 == 2 else C.gen_cfg(rng)
         prod = C.productive(rules, ts)
         if any(a not in prod or any(s not in prod for s in rhs) for a, rhs in rules):
             continue            # outside the theorem's hypothesis (F10); see the exotic stream
@@ -141,6 +141,11 @@ def correspond(ctx):
         inputs = [w for n in range(0, 5) for w in itertools.product(ts_used + ['z'], repeat=n)]
         rng.shuffle(inputs)
         inputs = inputs[:ctx.scale(40, 160)]
+        # one-token corruptions of sentences (errors deep inside a context)
+        for w in [w for n in range(2, 6) for w in itertools.product(ts_used, repeat=n) if C.accepts(rules, list(w))][:12]:
+            k = rng.randrange(len(w))
+            inputs.append(w[:k] + (rng.choice(ts_used),) + w[k + 1:])
+            inputs.append(w[:k + 1] + (rng.choice(ts_used),) + w[k + 1:])
         lalr_ok = lalr_conflict_free(rules, ts_used)
         for parser, lexer in ENGINES:
             if parser == 'lalr' and not lalr_ok:
